@@ -1169,6 +1169,32 @@ def d18b():
                     localScope[ref] = var"""),
 ])
 
+@fix('D53', "fix: a value stored through a swizzle must have as many components as the mask\n\n`v.xy = s;` or `v.xyz = w2;` passed the front end because an assignment took the\ntype of its target without looking at the assigned expression. The shuffle that\nimplements a swizzle store picks one component of the value per mask letter, so\nthe store failed in the VM with IndexError.")
+def d53():
+    patch('nsl/passes/ComputeTypes.py', [(
+"""            elif isinstance(expr, ast.BinaryExpression):
+                expr.ResolveType(
+                    expr.GetLeft().GetType(), expr.GetRight().GetType()
+                )
+""",
+"""            elif isinstance(expr, ast.BinaryExpression):
+                if (
+                    isinstance(expr, ast.AssignmentExpression)
+                    and isinstance(expr.GetLeft(), ast.MemberAccessExpression)
+                    and expr.GetLeft().isSwizzle
+                    and not types.IsCompatible(
+                        expr.GetLeft().GetType(), expr.GetRight().GetType()
+                    )
+                ):
+                    # A swizzle store takes one component per mask letter
+                    Errors.ERROR_INCOMPATIBLE_TYPES.Raise(
+                        expr.GetLeft().GetType(), expr.GetRight().GetType()
+                    )
+                expr.ResolveType(
+                    expr.GetLeft().GetType(), expr.GetRight().GetType()
+                )
+""")])
+
 if __name__ == '__main__':
     name = sys.argv[1]
     msg, f = FIXES[name]
